@@ -28,7 +28,10 @@ def run(cx, chk):
     chk.rule("C08.R2", "derived sizes: recent_size and ghost capacity = floor(size as f64 * ratio) as usize; recent/frequent capacity = size")
     chk.rule("C08.R3", "non-use operations (peek*, contains, len, per-segment accessors, ...) reach no mutation: they neither promote nor refresh")
     chk.rule("C08.R4", "purge empties every retained list of the cache")
+    chk.rule("C08.R5", "the quota and the ghost bound come from the configured ratios: TwoQueueCacheBuilder methods keep every field in place (none cross-wired, none reset), and no segment-named value is passed for another segment")
     for cfg, F in cx.cfgs():
+        composite.builder_setters(cx, chk, cfg, F, "C08.R5", only=("TwoQueueCacheBuilder",))
+        composite.role_wiring(cx, chk, cfg, F, "C08.R5")
         composite.policy_hygiene(cx, chk, cfg, F, "TwoQueueCache", "C08.R3", "C08.R4")
         for name in ("put", "get", "get_mut"):
             route(cx, chk, cfg, F, composite.cache_method(F, ADT, name), name)
